@@ -261,6 +261,37 @@ def cli(chk, P):
            found=ov, expect="unique keys", key="C14.O3|unique")
     chk.ob("C14.O3", "--add-item entries are passed on in the given order", ad == [("Pair", "X-Y", "a1"), ("Pair", "Z-Z", "a2")], site=site, found=ad,
            expect="X-Y then Z-Z", key="C14.O3|additions")
+    # the command line entry point: --override-item / --add-item / --remove-item reach the parser in those roles
+    do = P.func(POTABLE, "_do_tabulation")
+    J = F.make_interp(P)
+    got = {}
+
+    def cp_init2(i, fv, a, k, n):
+        got["overrides"] = k.get("overrides")
+        got["additional"] = k.get("additional")
+        got["file"] = a[0] if a else k.get("fp")
+        return NONE
+    J.hooks[CP + ":ConfigParser.__init__"] = cp_init2
+    J.hooks["atsim.potentials.tools.potable._actions:action_tabulate"] = lambda i, fv, a, k, n: NONE
+    J.x_sys_exit = lambda args, kwargs, node, env: NONE
+    given = {"config_file": W.param("config_file"), "out_filename": Const("out"),
+             "override_item": lol(["Pair:A-B=ov"]), "add_item": lol(["Pair:X-Y=ad"]), "remove_item": lol(["Pair:C-D"])}
+
+    class Parser(object):
+        def m_error(self, J_, args, kwargs):
+            raise AnalysisError("parser.error called: %r" % (args,))
+    raised = None
+    try:
+        J.run(do, [PyObjV(Parser()), PyObjV(W.ArgsModel(W.cli_defaults(P), given))])
+    except RaiseSignal as e:
+        raised = e.exc
+    ov2 = sorted((tup(t) for t in got["overrides"].items), key=repr) if isinstance(got.get("overrides"), ListV) else None
+    ad2 = [tup(t) for t in got["additional"].items] if isinstance(got.get("additional"), ListV) else None
+    okw = ov2 == [("Pair", "A-B", "ov"), ("Pair", "C-D", None)] and ad2 == [("Pair", "X-Y", "ad")] \
+        and got.get("file") is not None and got["file"].key() == W.param("config_file").key()
+    chk.ob("C14.O3", "potable -e Pair:A-B=ov -a Pair:X-Y=ad -r Pair:C-D: override, addition and removal reach ConfigParser in those roles, "
+                     "with the given model file", okw and raised is None, site=do.site(), found=(ov2, ad2) if raised is None else "raises %r" % (raised,), expect="overrides [A-B=ov, C-D removed], additional [X-Y=ad]",
+           key="C14.O3|entry-point-wiring")
     # premise for the splitter: its argument is touched only through 'in', split and rsplit on ':' / '='
     used = set()
     for node in ast.walk(fi.node):
